@@ -352,7 +352,7 @@
 (def peg-match-consumers
   @{"peg-match" (fn [[pat text]] (type (peg/match pat text)))
     "peg-find" (fn [[pat text]] (type (peg/find pat text)))
-    "peg-replace" (fn [[pat text]] (if (> (length text) 4096) 0 (length (peg/replace pat "z" text))))})
+    "peg-replace" (fn [[pat text]] (length (peg/replace pat "z" text)))})
 (def peg-match-consumer-names ["peg-match" "peg-find" "peg-replace"])
 
 # ---------------------------------------------------------------------------
